@@ -508,12 +508,15 @@ impl OtlpTransportBuilder {
                                 )));
                             }
 
+                            // A response that ends without any (readable) status at all was cut
+                            // short somewhere along the way; it's not an acknowledgement
+                            const STATUS_UNKNOWN: u32 = 2;
+
                             // A server that fails a request without sending a message reports
                             // the status in the response headers instead of in a trailer
                             let mut status = res
                                 .header("grpc-status")
-                                .and_then(|status| status.parse().ok())
-                                .unwrap_or(0);
+                                .map(|status| status.parse().unwrap_or(STATUS_UNKNOWN));
                             let mut msg = res
                                 .header("grpc-message")
                                 .map(String::from)
@@ -523,7 +526,7 @@ impl OtlpTransportBuilder {
                                 |_| {},
                                 |k, v| match k {
                                     "grpc-status" => {
-                                        status = v.parse().unwrap_or(0);
+                                        status = Some(v.parse().unwrap_or(STATUS_UNKNOWN));
                                     }
                                     "grpc-message" => {
                                         msg = v.into();
@@ -532,6 +535,8 @@ impl OtlpTransportBuilder {
                                 },
                             )
                             .await?;
+
+                            let status = status.unwrap_or(STATUS_UNKNOWN);
 
                             // A request is considered successful if the grpc-status trailer is 0
                             if status == 0 {
